@@ -72,18 +72,20 @@ func compile(text string) (m *xpath.Machine, err error, panicked interface{}) {
 }
 
 type Vector struct {
-	Fam      int        `json:"fam"`
-	Expr     string     `json:"expr"`
-	Variants []string   `json:"variants"`
-	Prog     []xpm.Ins  `json:"prog"`
-	Calls    []xpm.Call `json:"calls"`
-	T        string     `json:"t"`
-	VClass   string     `json:"vclass"`
-	Judged   bool       `json:"judged"`
-	Rb       bool       `json:"rb"`
-	Rn       xpm.NumRec `json:"rn"`
-	Rs       string     `json:"rs"`
-	RnJudged bool       `json:"rnJudged"`
+	Fam       int        `json:"fam"`
+	Expr      string     `json:"expr"`
+	Variants  []string   `json:"variants"`
+	Prog      []xpm.Ins  `json:"prog"`
+	Calls     []xpm.Call `json:"calls"`
+	T         string     `json:"t"`
+	VClass    string     `json:"vclass"`
+	Judged    bool       `json:"judged"`
+	Rb        bool       `json:"rb"`
+	Rn        xpm.NumRec `json:"rn"`
+	Rs        string     `json:"rs"`
+	RnJudged  bool       `json:"rnJudged"`
+	InfStr    bool       `json:"infstr"`    // some sub-expression denotes the string 'Infinity' / '-Infinity'
+	MultiConv bool       `json:"multiconv"` // a multi-valued leaf-list is operand of a function or of arithmetic
 }
 
 type Mism struct {
@@ -96,11 +98,11 @@ type Outcome struct {
 	BlackBox  bool   `json:"blackbox"`  // the listing was not recognised: judged by result and requests only
 	MultiConv bool   `json:"multiconv"` // the expression converts a multi-valued leaf-list (function / arithmetic operand)
 	InfStr    bool   `json:"infstr"`    // the expression consumes the string 'Infinity' / '-Infinity'
-	ID     int    `json:"id"`
-	Fam    int    `json:"fam"`
-	Expr   string `json:"expr"`
-	VClass string `json:"vclass"`
-	Mism   []Mism `json:"mism"`
+	ID        int    `json:"id"`
+	Fam       int    `json:"fam"`
+	Expr      string `json:"expr"`
+	VClass    string `json:"vclass"`
+	Mism      []Mism `json:"mism"`
 }
 
 // RunResult is what a caller of the machine can observe.
@@ -289,7 +291,7 @@ func replay(args []string) {
 			if !known {
 				nunknown++
 				o.BlackBox = true
-				o.MultiConv, o.InfStr = xpm.Consumes(v.Prog)
+				o.MultiConv, o.InfStr = v.MultiConv, v.InfStr
 			} else if !reflect.DeepEqual(prog, v.Prog) {
 				o.Mism = append(o.Mism, Mism{"prog", v.Prog, prog})
 			}
